@@ -25,7 +25,7 @@ func init() {
 		MinNontriv: 200,
 		Cases: func(tier string) int {
 			if tier == "thorough" {
-				return 256 + 30000
+				return 256 + 300000
 			}
 			return 256 + 2500
 		},
